@@ -67,7 +67,7 @@ func init() {
 			"c07.tcp.disabled", "c07.reply+data-coalesced", "c07.http.407-then-ok", "c07.frag.bytewise", "c07.domain=255", "c07.user=255", "c07.pass=255",
 			"c07.abort.EACCES", "c07.abort.ENETDOWN", "c07.abort.ENETUNREACH", "c07.abort.ENETRESET", "c07.abort.ECONNABORTED", "c07.abort.ECONNRESET",
 			"c07.abort.ETIMEDOUT", "c07.abort.ECONNREFUSED", "c07.abort.EHOSTDOWN", "c07.abort.EHOSTUNREACH", "c07.abort.ErrDomainNameLookup", "c07.abort.ErrOther",
-			"c07.path.writeto", "c07.auth.empty-user-table",
+			"c07.path.writeto", "c07.auth.empty-user-table", "c07.bystander-handshake",
 		},
 	})
 }
@@ -983,9 +983,24 @@ func (r *run) serve(srv netio.StreamServer, ln *simnet.TCPListener) {
 			s.Fail("c07.request-mismatch{payload,"+pn+"}", "request payload (%d bytes) is not a prefix of what the client sent after the handshake", len(req.Payload))
 			return
 		}
+		// The request must stay what it is while it is being routed and dialled: other handshakes
+		// on the same server, the reply and the relayed data must not change it.
+		recheck := func(when string) bool {
+			if !sameTarget(req.Addr, sc.target) {
+				s.Fail("c07.request-changed{addr,"+pn+"}", "the request's target read %v right after the handshake and reads %v %s", sc.target, req.Addr, when)
+				return false
+			}
+			return true
+		}
+		if s.GenChance(48) && r.bystander(srv, ln) && !recheck("after another client's handshake on the same server") {
+			return
+		}
 		if sc.abort {
 			if err := req.Abort(conn.DialResult{Code: sc.code, Err: errors.New("harness: onward connection failed")}); err != nil {
 				s.Fail("c07.error{abort}", "Abort(%s) on a fault-free transport: %v", lookupCode(sc.code).name, err)
+				return
+			}
+			if !recheck("after the failure reply was sent") {
 				return
 			}
 			r.serverChecked = true
@@ -997,13 +1012,16 @@ func (r *run) serve(srv netio.StreamServer, ln *simnet.TCPListener) {
 			s.Fail("c07.error{proceed}", "Proceed on a fault-free transport: %v", err)
 			return
 		}
+		if !recheck("after the success reply was sent") {
+			return
+		}
 		r.serverChecked = true
 		sv := &side{name: "server", c: c, sendKey: kS2C, recvKey: kC2S, sendLen: sc.s2c,
 			recvOff: int64(len(req.Payload)), recvLen: total - int64(len(req.Payload)), rmode: s.Choose(2)}
 		var swg sync.WaitGroup
 		runSide(s, &swg, sv)
 		swg.Wait()
-		if !s.Failed() {
+		if !s.Failed() && recheck("after the stream was relayed") {
 			c.Close()
 		}
 	case oUDP:
@@ -1036,6 +1054,88 @@ func (r *run) serve(srv netio.StreamServer, ln *simnet.TCPListener) {
 		r.serverChecked = true
 		raw.Close()
 	}
+}
+
+// bystander lets another client complete a handshake for a different domain target on the same
+// server while the first request is still pending. It reports whether that handshake took place.
+func (r *run) bystander(srv netio.StreamServer, ln *simnet.TCPListener) bool {
+	s, sc := r.s, r.sc
+	var cred *user
+	if sc.auth {
+		if len(sc.users) == 0 {
+			return false
+		}
+		cred = &sc.users[0]
+	}
+	name := util.Domain(s, 1+s.Choose(3))
+	if d := sc.target; !d.IsIP() && s.GenChance(160) {
+		// same length as the pending request's name: a recycled buffer would fit exactly
+		b := []byte(d.Domain())
+		for i := range b {
+			if b[i] != '.' {
+				b[i] = 'z'
+			}
+		}
+		name = string(b)
+	}
+	other, err := conn.AddrFromDomainPort(name, uint16(1+s.Choose(65535)))
+	if err != nil {
+		return false
+	}
+	var hs []byte
+	switch sc.proto {
+	case pSocks5:
+		if !sc.tcp {
+			return false
+		}
+		if cred != nil {
+			hs = append(hs, 5, 1, 2, 1, byte(len(cred.name)))
+			hs = append(hs, cred.name...)
+			hs = append(hs, byte(len(cred.pass)))
+			hs = append(hs, cred.pass...)
+		} else {
+			hs = append(hs, 5, 1, 0)
+		}
+		hs = append(hs, 5, 1, 0)
+		hs = append(hs, socksAddr(other)...)
+	case pHTTP:
+		h := "CONNECT " + authority(other) + " HTTP/1.1\r\nHost: " + authority(other) + "\r\n"
+		if cred != nil {
+			h += "Proxy-Authorization: Basic " + base64.StdEncoding.EncodeToString([]byte(cred.name+":"+cred.pass)) + "\r\n"
+		}
+		hs = []byte(h + "\r\n")
+	default:
+		hs = socksAddr(other)
+	}
+	s.Probe("c07.bystander-handshake")
+	done := make(chan struct{})
+	s.Go("bystander", func() {
+		defer close(done)
+		c, err := r.cliHost.DialTCP(context.Background(), r.srvAP)
+		if err != nil {
+			return
+		}
+		c.Write(hs)
+		c.CloseWrite()
+		io.Copy(io.Discard, c)
+		c.Close()
+	})
+	raw2, err := ln.AcceptTCP()
+	if err != nil {
+		s.HarnessError("bystander accept: %v", err)
+		return false
+	}
+	req2, err := srv.HandleStream(raw2, util.Logger())
+	ok := err == nil && req2.PendingConn != nil
+	if ok {
+		if !sameTarget(req2.Addr, other) {
+			s.Fail("c07.request-mismatch{addr,"+protoName[sc.proto]+"}", "server extracted target %v for a second client that asked for %v", req2.Addr, other)
+		}
+		req2.Abort(conn.DialResult{Code: conn.DialResultCodeErrOther, Err: errors.New("harness: bystander")})
+	}
+	raw2.Close()
+	<-done
+	return ok && !s.Failed()
 }
 
 func (r *run) lastKind() string {
